@@ -56,8 +56,11 @@ class Lab:
         self.entered = {}
         self.on_glue = {}
         self.objs = {}
+        class Facade:
+            """What some libraries put into sys.modules in place of a module: an ordinary object (sys.modules[__name__] = Impl())."""
+
         for m, has_mod, has_builtin, mod_raises, builtin_raises in mods:
-            obj = types.ModuleType(self.name(m))
+            obj = types.ModuleType(self.name(m)) if m % 3 != 2 else Facade()
             if has_mod:
                 obj._stackscope_install_glue_ = self.mk("mod", m, mod_raises)
             if has_builtin:
@@ -214,6 +217,8 @@ class C17(PropCheck):
         for own in (True, False):
             for raises in (False, True):
                 out.append({"k": "late_register", "own_glue": own, "raises": raises, "mods": []})
+            # ... in a documentation build (sphinx loaded): nothing is run at registration, everything at the first extraction
+            out.append({"k": "late_register", "own_glue": own, "raises": False, "mods": [], "sphinx": True})
         # the F16 shape: a module with both kinds of glue vanishes during the scan and comes back
         out.append({"k": "seq", "mods": [[0, False, False, False, False], [1, True, True, False, False], [2, False, False, False, False]],
                     "ops": [["insert", 0], ["insert", 1], ["extractR", [1]], ["insert", 1], ["insert", 2], ["extract"]]})
@@ -323,6 +328,9 @@ class C17(PropCheck):
         if case["own_glue"]:
             mod._stackscope_install_glue_ = lambda: rec.append("mod")
         sys.modules[name] = mod
+        fake_sphinx = case.get("sphinx") and "sphinx" not in sys.modules
+        if fake_sphinx:
+            sys.modules["sphinx"] = types.ModuleType("sphinx")
         try:
             lab.gl.builtin_glue_pending.pop(name, None)
 
@@ -335,6 +343,8 @@ class C17(PropCheck):
             lab.extract()
         finally:
             sys.modules.pop(name, None)
+            if fake_sphinx:
+                sys.modules.pop("sphinx", None)
             lab.gl.builtin_glue_pending.pop(name, None)
         return {"log": rec, "late_register": True, "at_registration": at_registration, "error": None}
 
